@@ -212,7 +212,7 @@ def make_layer(ctx, qual, period=PERIOD):
             real_names, real_varkw = set(), True
 
         def wrapper(*a, **k):
-            if core.in_monitor() or _depth[0] > 0 or sig is None:
+            if core.in_monitor() or _depth[0] > 0 or sig is None or core.in_twin():
                 return orig(*a, **k)
             rng = _rng(ctx)
             twin = rng.integers(period) == 0
